@@ -32,20 +32,47 @@ class EdgeMonitor(Monitor):
         ('Pending', 'Ready'), ('Ready', 'Creating'), ('Ready', 'Running'), ('Creating', 'Running'), ('Creating', 'Ready'), ('Running', 'Ready'),
     } | {(a, t) for a in LIVE for t in TERMINAL}
 
-    def __init__(self, patterns, check_lifecycle=True, check_cancel=True):
+    def __init__(self, patterns, check_lifecycle=True, check_cancel=True, check_handover=False):
         self.p = patterns
         self.check_lifecycle = check_lifecycle
         self.check_cancel = check_cancel
+        self.check_handover = check_handover
         self.reset()
 
     def reset(self):
         self.prev = {}
         self.prev_marked = {}
         self.prev_attempt = {}
+        self.posts_seen = 0
+
+    def check_posts(self):
+        """C05 "unless it is always-run, it never runs": the driver POSTs a job to the worker BEFORE the SQL gate (CALL schedule_job), so
+        a job handed over starts on the worker even if the gate then refuses it.  A child is marked cancelled (jobs.cancelled = 1)
+        in the same transaction that readies it, so no scheduling pass of the unchanged service can have selected it earlier: a
+        hand-over of a non-always-run job carrying that mark is a selection bug.  (Group cancellation is different - a cancel can
+        land between selection and hand-over, and C07 speaks of state moves only - and is not judged here.)"""
+        fz = getattr(self.r, 'fz', None)
+        if fz is None or not self.check_handover:
+            return
+        posts = fz.worker_posts
+        while self.posts_seen < len(posts):
+            p = posts[self.posts_seen]
+            self.posts_seen += 1
+            self.r.ctx.count('worker_hand_overs_checked')
+            if p['cancelled_flag']:
+                self.r.ctx.count('worker_hand_overs_of_jobs_marked_cancelled_by_a_parent')
+            if p['cancelled_flag'] and not p['always_run'] and p['committed']:
+                k = tuple(p['job'])
+                self.r.violation(explain(self.p, 'cancelled-child-handed-to-a-worker', [('job', k), ('batch', k[0])]),
+                                 f'job {k} (not always_run, {p["state"]}, cancelled = 1 because a parent did not succeed) was POSTed to a worker', p)
+
+    def on_op(self, rec, v):
+        self.check_posts()
 
     def on_commit(self, v):
         ctx = self.r.ctx
         T = v.eng.tables
+        self.check_posts()
         for k, j in v.jobs.items():
             s = j['state']
             ps = self.prev.get(k)
